@@ -21,6 +21,7 @@ type loopInfo struct {
 	iter     ssa.Value  // Range instruction if this is a map-range loop
 	idxPhi   *ssa.Phi   // range index phi of a slice-range loop
 	idxAlloc *ssa.Alloc // range index local (NaiveForm)
+	idxLen   ssa.Value  // the length the range index is compared with
 	entryPC  Term
 }
 
@@ -894,6 +895,9 @@ func (x *Exec) computeOrder() {
 					li.idxAlloc = a
 				}
 			}
+			if bo, ok := in.(*ssa.BinOp); ok && bo.Op == token.LSS && li.idxAlloc != nil {
+				li.idxLen = bo.Y
+			}
 		}
 	}
 	// ancestors (reachability over the full CFG, back edges included)
@@ -1071,6 +1075,22 @@ func (x *Exec) execBlock(b *ssa.BasicBlock) {
 	x.runBody(b, st, pc)
 }
 
+// rangeIdxInv: -1 <= rangeindex < len, the invariant of a compiler-generated slice range loop (proved, not assumed)
+func (x *Exec) rangeIdxInv(li *loopInfo, st *State) (Term, bool) {
+	if li.idxAlloc == nil || li.idxLen == nil {
+		return Term{}, false
+	}
+	ln, ok := x.vals[li.idxLen]
+	if !ok {
+		return Term{}, false
+	}
+	idx, ok := st.locals[li.idxAlloc]
+	if !ok {
+		return Term{}, false
+	}
+	return T(SBool, "(and (bvsle (_ bv18446744073709551615 64) %s) (bvslt %s %s) (bvsle (_ bv0 64) %s))", idx.S, idx.S, ln.S, ln.S), true
+}
+
 func (x *Exec) enterLoop(li *loopInfo, st *State, pc Term) {
 	b := li.header
 	x.vc.curBlock = b.Index
@@ -1083,6 +1103,10 @@ func (x *Exec) enterLoop(li *loopInfo, st *State, pc Term) {
 			goal := x.evalClause(env, c)
 			x.vc.oblige(&Obligation{Name: c.Name + ".init", Kind: "invariant-init", Tags: c.Tags, Goal: goal, PC: pc, Src: c.Src, Pos: x.posStr(firstPos(b)), Observe: x.observations()})
 		}
+	}
+	if g, ok := x.rangeIdxInv(li, st); ok {
+		// len >= 0 is the slice type invariant; the index part is proved
+		x.vc.oblige(&Obligation{Name: fmt.Sprintf("%s.loop%d.rangeindex.init", x.fnName(), li.num), Kind: "invariant-init", Goal: g, PC: pc, Src: "-1 <= rangeindex < len (automatic)", Pos: x.posStr(firstPos(b))})
 	}
 	// 2. discovery pass: which state components does the body modify?
 	sn := x.snap()
@@ -1129,6 +1153,9 @@ func (x *Exec) enterLoop(li *loopInfo, st *State, pc Term) {
 		r := fmt.Sprintf("r!q%d", x.qn)
 		x.vc.assume(T(SBool, "(forall ((%s Ref)) (! (=> (select %s %s) (select %s %s)) :pattern ((select %s %s))))", r,
 			x.heapGet(st, allocHeap, arraySort(SRef, SBool)).S, r, hst.heaps[allocHeap].S, r, hst.heaps[allocHeap].S, r), "allocation is monotone across loop iterations")
+	}
+	if g, ok := x.rangeIdxInv(li, hst); ok {
+		x.vc.assume(implies(pc, g), "range index invariant")
 	}
 	// 4. assume invariants
 	if li.ann != nil {
@@ -1276,6 +1303,9 @@ func (x *Exec) runBody(b *ssa.BasicBlock, st *State, pc Term) {
 			continue
 		}
 		ec := x.edgeCond[[2]*ssa.BasicBlock{b, s}]
+		if g, ok := x.rangeIdxInv(li, st); ok {
+			x.vc.oblige(&Obligation{Name: fmt.Sprintf("%s.loop%d.rangeindex.step", x.fnName(), li.num), Kind: "invariant-step", Goal: g, PC: ec, Src: "-1 <= rangeindex < len (automatic)", Pos: x.posStr(firstPos(s))})
+		}
 		if li.ann == nil {
 			continue
 		}
